@@ -19,7 +19,7 @@ PROP = {
     "ShortestPaths and Sabre put": "C09", "stabiliser measurement multiplies": "C12",
     "collapsing measurements on the Clifford": "C12", "gates with extra controlled_by": "C12",
     "stim engine keeps": "C12", "Unitary.parameters setter": "C06", "Circuit.unitary includes": "C01",
-    "M.on_qubits and the star router re-key": "C03", "expectation_from_circuit adds": "C15", "Preprocessing, Rearrange and the star router keep the density_matrix flag": "C11", "the stim engine of the Clifford backend runs the acceptance test": "C12", "Rearrange rebuilds measurements": "C11", "Align accepts a NumPy integer": "C06", "FusedGate.decompose returns the decompositions": "C07", "gates whose parameters depend on measurement outcomes stay out of fusion": "C07", "gate-level samples(binary=False), frequencies() and raw": "C03", "M.raw keeps the register name": "C03", "a measurement result shared between circuits": "C03", "the star router also re-keys": "C09", "Circuit.invert re-creates the final measurements": "C05", "a measurement's basis rotation that was absorbed": "C07", "once a measurement's basis rotations are in the queue": "C05", "an execution with a circuit as initial state is recorded": "C14", "the qulacs backend reverses the qubit order": "C02", "binary_encoder with Hopf coordinates refuses": "C20", "collapsing measurements record": "C03", "assert_connectivity ignores": "C11",
+    "M.on_qubits and the star router re-key": "C03", "expectation_from_circuit adds": "C15", "SymbolicAdiabaticHamiltonian tags private copies": "C16", "Preprocessing, Rearrange and the star router keep the density_matrix flag": "C11", "the stim engine of the Clifford backend runs the acceptance test": "C12", "Rearrange rebuilds measurements": "C11", "Align accepts a NumPy integer": "C06", "FusedGate.decompose returns the decompositions": "C07", "gates whose parameters depend on measurement outcomes stay out of fusion": "C07", "gate-level samples(binary=False), frequencies() and raw": "C03", "M.raw keeps the register name": "C03", "a measurement result shared between circuits": "C03", "the star router also re-keys": "C09", "Circuit.invert re-creates the final measurements": "C05", "a measurement's basis rotation that was absorbed": "C07", "once a measurement's basis rotations are in the queue": "C05", "an execution with a circuit as initial state is recorded": "C14", "the qulacs backend reverses the qubit order": "C02", "binary_encoder with Hopf coordinates refuses": "C20", "collapsing measurements record": "C03", "assert_connectivity ignores": "C11",
     "Circuit.copy(deep=True)": "C06", "associate_gates_with_parameters": "C06",
     "_ParametrizedGates built": "C06", "the fSim returned as dagger": "C06",
     "fusing a circuit that already": "C07", "frequencies(registers=True)": "C03",
